@@ -18,7 +18,9 @@ claim("C09",
   "(b) endpoint parameters (_check_parameters_for_conflicts with its dictionary, modified set - including the mis-keyed add - and re-run): conflict_check_terminates (fuel length+1, in fact 2, suffices: the re-run test compares "
   "the set with itself); check_params_keys (no parameter lost or re-keyed); params_distinct_quiet (success + last run of the loop quiet => pairwise distinct, none is client/url; run-time guard g_last_pass_quiet); "
   "params_distinct / model_params_distinct (static guard g_no_raw_fallback over all parameter names: success => exactly client/url renamed to <name>_<location>, pairwise distinct); params_distinct_refuted "
-  "(path x_header_path, path x_header, query X, header x -> two parameters x_header_path, no error). "
+  "(path x_header_path, path x_header, query X, header x -> two parameters x_header_path, no error); the two lists of one operation (model_params2: operation-level add_parameters call, then the path-item-level call - "
+  "absent list = no check, shadowed keys ignored (compared with the ESCAPED stored name, as the code does), the check runs over ALL parameters with the names the first call left): model_params2_distinct_quiet "
+  "(any split of the parameters between the two lists: no error + last run of the last executed check quiet => pairwise distinct, none client/url), model_params2_distinct (static guard), model_params2_keys. "
   "(c) enum member keys: values_from_list_keys_nodup (Values.v). (d) classes: classes_distinct_or_error (generated class names pairwise distinct; every schema generated or reported; of two schemas with one derived "
   "ClassName the later is reported) and modules_unchecked_refuted (AB / Ab: two classes, one module ab); the class-name scope WITH enums (EnumProperty.build: member table first, then `values != existing.values` as dict "
   "equality, equal twin replaces the entry, enum vs model reported): enum_classes_distinct_or_shared (class names pairwise distinct; every generated enum class holds exactly the member table of one declared value list; "
@@ -34,7 +36,10 @@ claim("C09",
   "schema of a document), process_step_distinct_refuted (member {fooBar, FooBar}, then Foo_bar, $foo_Bar, foo_Bar, then fooBar re-declared as date: distinct before the merge step, two attributes foo_Bar after it; "
   "confirmed on the real parser; same call site as attr_rename_unchecked), non-vacuity process_merge_fallback (startDate, start_date, startDate re-declared as date) and process_guard_nonvacuous. "
   "Correspondence evaluated inside Coq: ~25k (function,string) cases per quick run for Names.v; ~1.7k name lists per quick run for Scopes.v through the real property_from_data (object schema -> python names or "
-  "'Conflicting property names'), Endpoint.add_parameters (python names in iteration order or ParseError) and GeneratorData.from_dict (class names + duplicate-model errors); ~350 declaration sequences (enum twins whose member names coincide while values differ in case / delimiters / VALUE_n form, inline enums, "
+  "'Conflicting property names'), Endpoint.add_parameters (python names in iteration order or ParseError) and GeneratorData.from_dict (class names + duplicate-model errors); ~700 splits per quick run of one operation's parameters between the path-item list and the operation list "
+  "(0+1, 1+0, 1+1, 1+n, n+1, n+m, absent vs empty list, lone client/url/keyword, names colliding across the lists in the same and in different locations, keys present in both) through the two real "
+  "Endpoint.add_parameters calls == Scopes.model_params2, and ~50 of them as documents through the whole generator (endpoint module must compile and _get_kwargs must take exactly those python names, or a diagnostic is printed); "
+  "~350 declaration sequences (enum twins whose member names coincide while values differ in case / delimiters / VALUE_n form, inline enums, "
   "object schemas) through a threaded real property_from_data and ~120 documents through GeneratorData.from_dict vs Scopes.model_decls; for ~30 generated trees per quick run (operationIds / tags / schema names from a hostile pool: "
   "leading digits, symbols only, empty, keywords) the api/<tag>/, api/<tag>/<operation>.py and models/<class>.py names are compared in Coq with Names.python_identifier of the parsed names (oracles on the same outputs: every generated "
   "enum class holds exactly one declared value list and every unreported declared enum is held by some class; every directory and .py stem of a generated tree is a valid non-keyword identifier); ~1k (quick) / ~14k (thorough) random components-only documents "
